@@ -219,7 +219,7 @@ func (c *EvalCtx) eval(e *Expr) *V {
 		switch {
 		case base.K == KSlice:
 			et := base.T.Underlying().(*types.Slice).Elem()
-			return st.load(st.elemLoc(base.Arr, "(+ "+base.Off+" "+idx.S+")", et))
+			return st.load(st.elemLoc(base.Arr, st.ixTerm(base.Off, idx.S), et))
 		case base.K == KMapH || (base.K == KInt && isMapType(base.T)):
 			h := c.mapHandleOf(base, e)
 			k := c.keyTerm(c.coerceTo(idx, h.kt), e)
@@ -398,7 +398,7 @@ func (c *EvalCtx) evalBin(e *Expr) *V {
 			// membership in a slice: exists index
 			et := m.T.Underlying().(*types.Slice).Elem()
 			q := mangle("q:in")
-			el := c.st.load(c.st.elemLoc(m.Arr, "(+ "+m.Off+" "+q+")", et))
+			el := c.st.load(c.st.elemLoc(m.Arr, c.st.ixTerm(m.Off, q), et))
 			k = c.coerceTo(k, et)
 			return vBool("(exists ((" + q + " Int)) (and (<= 0 " + q + ") (< " + q + " " + m.Len + ") " + c.st.eqV(el, k) + "))")
 		}
@@ -658,6 +658,11 @@ func (c *EvalCtx) evalCall(e *Expr) *V {
 		ref := c.refOf(c.eval(e.Args[0]), e.Args[0])
 		c.run.addLockCand(ref)
 		return vInt(sSel(st.comp("held", 1, "Int"), ref), types.Typ[types.Int])
+	case "acquisitions":
+		// acquisitions(x.lock): how many times this lock has been acquired (ghost counter)
+		argc(1)
+		ref := c.refOf(c.eval(e.Args[0]), e.Args[0])
+		return vInt(sSel(st.comp("lockacq", 1, "Int"), ref), types.Typ[types.Int])
 	case "noLocksHeld":
 		argc(0)
 		return vBool("(forall ((l Int)) (! (= (select " + st.comp("held", 1, "Int") + " l) 0) :pattern ((select " + st.comp("held", 1, "Int") + " l))))")
